@@ -1,9 +1,9 @@
 import MdIt.Props.C17
-import MdIt.BlockQuote
+import MdIt.BlockList
 /-!
 # C17 (continued) — equivalent encodings give the same parse: end-to-end for the modelled sub-parsers
 
-Because `miniParse` / `qParse` start with `normalize`, the encoding theorems of `C17` lift to whole parses: any
+Because `miniParse` / `qParse` / `lParse` start with `normalize`, the encoding theorems of `C17` lift to whole parses: any
 mixture of LF / CR LF / CR spellings of the line endings, and NUL vs U+FFFD, give the same token stream — for every
 source, rule subset and `maxNesting`.
 -/
@@ -33,6 +33,18 @@ theorem q_nul (c : MiniCfg) (ws : List Nat) (mn : Int) (s : List Char) :
 theorem mini_nul (c : MiniCfg) (ws : List Nat) (mn : Int) (s : List Char) :
     miniParse c ws mn (s.map (fun ch => if ch = '\x00' then '�' else ch)) = miniParse c ws mn s := by
   unfold miniParse
+  rw [nul_like_fffd s]
+  cases s <;> rfl
+
+/-- **C17.l_line_endings** — with quotes and lists -/
+theorem l_line_endings (c : MiniCfg) (ws : List Nat) (mn : Int) (s s' : List Char) (hm : Mixed s s') (h : noCR s) :
+    lParse c ws mn s' = lParse c ws mn s := by
+  unfold lParse
+  rw [normalize_mixed s s' hm h, isEmpty_of_mixed hm]
+
+theorem l_nul (c : MiniCfg) (ws : List Nat) (mn : Int) (s : List Char) :
+    lParse c ws mn (s.map (fun ch => if ch = '\x00' then '�' else ch)) = lParse c ws mn s := by
+  unfold lParse
   rw [nul_like_fffd s]
   cases s <;> rfl
 
